@@ -391,12 +391,92 @@ fn cmd_replay(args: &[String]) -> i32 {
     }
 }
 
+/// The oracle's own sensitivity: misuse the allocator seam on purpose and expect each detector to fire.
+fn cmd_selfcheck() -> i32 {
+    use simcore::heap;
+    use std::alloc::Layout;
+    silent_panics();
+    let mut failed = 0;
+    let mut case = |name: &str, want: &str, f: &dyn Fn()| {
+        heap::begin_run(Default::default());
+        f();
+        let (_, v) = heap::end_run();
+        let got = v.map(|v| v.kind).unwrap_or("none");
+        let ok = got == want;
+        println!("{} {name}: expected {want}, shadow heap reported {got}", if ok { "ok  " } else { "FAIL" });
+        if !ok {
+            failed += 1;
+        }
+    };
+    let l = Layout::from_size_align(40, 8).unwrap();
+    unsafe {
+        case("clean alloc/realloc/dealloc", "none", &|| {
+            let p = heap::with(|h| h.alloc(l));
+            let q = heap::with(|h| h.realloc(p, l, 80));
+            heap::with(|h| h.dealloc(q, Layout::from_size_align(80, 8).unwrap()));
+        });
+        case("double free", "double_free", &|| {
+            let p = heap::with(|h| h.alloc(l));
+            heap::with(|h| h.dealloc(p, l));
+            heap::with(|h| h.dealloc(p, l));
+        });
+        case("free with another size", "layout_mismatch", &|| {
+            let p = heap::with(|h| h.alloc(l));
+            heap::with(|h| h.dealloc(p, Layout::from_size_align(48, 8).unwrap()));
+        });
+        case("free with another alignment", "layout_mismatch", &|| {
+            let p = heap::with(|h| h.alloc(l));
+            heap::with(|h| h.dealloc(p, Layout::from_size_align(40, 16).unwrap()));
+        });
+        case("free of an interior pointer", "unknown_pointer", &|| {
+            let p = heap::with(|h| h.alloc(l));
+            heap::with(|h| h.dealloc(p.add(8), l));
+        });
+        case("realloc after free", "realloc_after_free", &|| {
+            let p = heap::with(|h| h.alloc(l));
+            heap::with(|h| h.dealloc(p, l));
+            heap::with(|h| h.realloc(p, l, 80));
+        });
+        case("write one byte past the block", "guard_damaged", &|| {
+            let p = heap::with(|h| h.alloc(l));
+            *p.add(40) = 1;
+            heap::with(|h| h.dealloc(p, l));
+        });
+        case("write one byte before the block", "guard_damaged", &|| {
+            let p = heap::with(|h| h.alloc(l));
+            *p.sub(1) = 1;
+            heap::with(|h| h.dealloc(p, l));
+        });
+        case("write after free", "write_after_free", &|| {
+            let p = heap::with(|h| h.alloc(l));
+            heap::with(|h| h.dealloc(p, l));
+            *p.add(3) = b'x';
+        });
+        case("write through the old pointer after a moving realloc", "write_after_free", &|| {
+            let p = heap::with(|h| h.alloc(l));
+            let q = heap::with(|h| h.realloc(p, l, 80));
+            *p = b'x';
+            heap::with(|h| h.dealloc(q, Layout::from_size_align(80, 8).unwrap()));
+        });
+    }
+    // a leak is reported by the live-block count
+    heap::begin_run(Default::default());
+    let _p = unsafe { heap::with(|h| h.alloc(l)) };
+    let (live, _) = heap::end_run();
+    println!("{} leak: {live} live block(s) at the end of the run", if live == 1 { "ok  " } else { "FAIL" });
+    if live != 1 {
+        failed += 1;
+    }
+    if failed == 0 { 0 } else { 1 }
+}
+
 fn main() {
     let args: Vec<String> = std::env::args().skip(1).collect();
     let code = match args.first().map(|s| s.as_str()) {
         Some("worker") => cmd_worker(&args),
         Some("batch") => cmd_batch(&args),
         Some("replay") => cmd_replay(&args),
+        Some("selfcheck") => cmd_selfcheck(),
         _ => {
             eprintln!("usage: histsim batch|worker|replay ...");
             2
